@@ -21,7 +21,7 @@ from fractions import Fraction
 
 OPS = {
     "hist": {}, "histf": {"spec_only": True}, "track_direct": {}, "track_thread": {}, "track_real": {},
-    "sched": {"spec_only": True}, "lock_facts": {}, "track_abandon": {},
+    "sched": {"spec_only": True}, "lock_facts": {}, "track_abandon": {}, "sched_mix": {"spec_only": True}, "fhist": {"spec_only": True}, "float_witness": {},
 }
 HERE = os.path.dirname(os.path.abspath(__file__))
 
@@ -102,6 +102,39 @@ def gen_hist(rng, long=False):
     return [mode, qi(period), ops]
 
 
+FLOAT_POOL = [0.1, 0.2, 0.3, 1e-3, 1.0, 2.5, 1e16, 1e8 + 0.1, -0.7, 3.3e-7, 1 / 3, 123456.789, 2.0 ** 53, 5e-324 * 2 ** 60,
+              0.0, 7.0, -2.5e15]
+
+
+def gen_fhist(rng):
+    """histories with arbitrary float amounts (all values floats): the accounting identity is checked in
+    the rounded sense of SpecProgress.float_accounting_ok_b"""
+    def f():
+        x = rng.choice(FLOAT_POOL) * rng.choice([1, 1, 3, 0.1])
+        return fq(float(x))
+    ops = []
+    now = 0
+    ntasks = rng.randint(1, 3)
+
+    def clk():
+        nonlocal now
+        now += rng.choice([0, 1, 2, 40])
+        return [qi(now), qi(now)]
+    for _ in range(ntasks):
+        ops.append([0, 1, f(), f() if rng.random() < 0.5 else fq(0.0), 1] + clk())
+    for _ in range(rng.randint(3, 25)):
+        tid = rng.randrange(ntasks)
+        r = rng.random()
+        if r < 0.65:
+            ops.append([5, tid, f()] + clk())
+        elif r < 0.9:
+            ops.append([3, tid, [f()] if rng.random() < 0.2 else [], [f()] if rng.random() < 0.3 else [],
+                        [f()] if rng.random() < 0.7 else [], []] + clk())
+        else:
+            ops.append([4, tid, 1, [], f(), []] + clk())
+    return [1, qi(30), ops]
+
+
 def gen_track(rng):
     n = rng.choice([0, 0, 1, 1, 2, 3, 5, 8, 13, rng.randint(0, 40)])
     xs = [rng.randint(-5, 50) for _ in range(n)]
@@ -121,6 +154,9 @@ def generate(rng, tier):
     for _ in range(3 * k):
         h = gen_hist(rng, long=True)
         cases.append(("hist", h))
+    cases.append(("float_witness", []))
+    for _ in range(400 * k):
+        cases.append(("fhist", gen_fhist(rng)))
     for _ in range(150 * k):
         existing, xs, total, as_gen = gen_track(rng)
         cases.append(("track_direct", [existing, xs, total, as_gen]))
@@ -128,7 +164,9 @@ def generate(rng, tier):
         cases.append(("track_thread", [existing, xs, total, sch, as_gen]))
     for _ in range(10 * k):
         existing, xs, total, as_gen = gen_track(rng)
-        cases.append(("track_real", [existing, xs, total, [], as_gen]))
+        # fresh tasks only: on an existing task the outcome (finished latched by an intermediate batch) depends
+        # on the real timer's batching; the scripted track_thread op covers existing tasks deterministically
+        cases.append(("track_real", [[], xs, total, [], as_gen]))
     for _ in range(40 * k):
         existing, xs, total, as_gen = gen_track(rng)
         if xs:
@@ -143,11 +181,23 @@ def generate(rng, tier):
         start = [] if rng.random() < 0.15 else [rng.choice([0, -5])]
         period = rng.choice([30, 30, 2, 0])
         cases.append(("sched", [c0, total, start, period, progs, 0, rng.randint(0, 10 ** 9)]))
+    for _ in range(200 * k):
+        # threads mixing advance / update / reset on one task
+        def mop():
+            r = rng.random()
+            if r < 0.5:
+                return [0, rng.choice([1, 1, 2, 5, -1])]
+            if r < 0.85:
+                o = lambda p: [rng.choice([0, 1, 3, 7, 10])] if rng.random() < p else []
+                return [1, o(0.3), o(0.4), o(0.6)]
+            return [2, rng.choice([0, 0, 4])]
+        progs = [[mop() for _ in range(rng.randint(1, 3))] for _ in range(rng.choice([2, 2, 3, 4]))]
+        cases.append(("sched_mix", [rng.choice([0, 3]), rng.choice([100, 6, 10 ** 9]), [0], 30, progs, 0, rng.randint(0, 10 ** 9)]))
     return cases
 
 
 def model_case(op, arg):
-    if op in ("hist", "histf"):
+    if op in ("hist", "histf", "fhist"):
         return op, arg[1:]
     if op == "track_direct":
         return op, arg[:3]
@@ -164,7 +214,7 @@ def conv(q, mode):
     if mode == 2:
         return Fraction(n, d)
     if mode == 1:
-        return float(n) / float(d)
+        return float(Fraction(n, d))
     return n if d == 1 else n / d       # dyadic denominators: exact
 
 
@@ -377,7 +427,7 @@ def load_sched():
     return mod
 
 
-def run_sched(arg):
+def run_sched(arg, mixed=False):
     from collections import deque
     import rich.progress as rp
     S = load_sched()
@@ -413,14 +463,35 @@ def run_sched(arg):
         if name == "completed" and s.tid() is not None:
             s.yield_point()
             object.__setattr__(self, name, value)
+            written.append(value)
             s.event(S.WR)
             return
         object.__setattr__(self, name, value)
 
-    def worker(amounts):
+    written = []
+    acq_order = []
+
+    def call(o):
+        if isinstance(o, int):
+            return p.advance(tid, o)
+        if o[0] == 0:
+            return p.advance(tid, o[1])
+        if o[0] == 1:
+            kw = {}
+            if o[1]:
+                kw["total"] = o[1][0]
+            if o[2]:
+                kw["completed"] = o[2][0]
+            if o[3]:
+                kw["advance"] = o[3][0]
+            return p.update(tid, **kw)
+        return p.reset(tid, completed=o[1])
+
+    def worker(ops):
         def fn():
-            for a in amounts:
-                p.advance(tid, a)
+            for o in ops:
+                acq_order.append((s.tid(), o))     # the call is entered; re-ordered below by lock acquisition
+                call(o)
         return fn
 
     Task.__getattribute__ = getter
@@ -432,6 +503,15 @@ def run_sched(arg):
         del Task.__setattr__
     final = [task.completed, [[sm.timestamp, sm.completed] for sm in task._progress], opt(task.finished_time), clock.next]
     tr = task.time_remaining
+    if mixed:
+        # calls in lock-acquisition order: the k-th acquisition of thread t is its k-th call
+        nxt = [0] * len(progs)
+        order = []
+        for t, k in log:
+            if k == S.ACQ:
+                order.append(progs[t][nxt[t]])
+                nxt[t] += 1
+        return [[[t, k] for t, k in log if k in (S.ACQ, S.REL, S.WR)], order, written, task.completed]
     return [[[t, k] for t, k in log], final, opt(task.speed, fq), opt(tr, lambda v: int(v)), s.yields]
 
 
@@ -440,6 +520,16 @@ def impl(op, arg):
         return run_hist(arg, obs_exact, True)
     if op == "histf":
         return run_hist(arg, obs_float, False)
+    if op == "fhist":
+        return run_hist(arg, lambda t: [int(t.id), fq(t.completed)], False)
+    if op == "float_witness":
+        # IEEE absorption on the real object: 1e16 + 1.0 + 1.0 stays 1e16
+        p = new_progress(AutoClock())
+        tid = p.add_task("t", total=1e17, completed=1e16)
+        p.advance(tid, 1.0)
+        p.advance(tid, 1.0)
+        c = p._tasks[tid].completed
+        return [fq(c), 1 if Fraction(c) == 10 ** 16 + 2 else 0, 1]
     if op == "track_direct":
         existing, xs, total, as_gen = arg
         p, tid, kw = _track_prepare(existing, xs, total, False)
@@ -451,6 +541,8 @@ def impl(op, arg):
         return run_track_thread(arg, True)
     if op == "sched":
         return run_sched(arg)
+    if op == "sched_mix":
+        return run_sched(arg, mixed=True)
     if op == "track_abandon":
         # the consumer takes k elements and abandons the loop (generator closed at its yield)
         existing, xs, total, k, path, as_gen = arg
@@ -478,6 +570,13 @@ def spec_cases(op, arg, out):
                 ("spec.derived_close", [1 if arg[0] == 2 else 0, h, out])]
     if op in ("track_direct", "track_thread", "track_real") and not arg[0]:
         return [("spec.track_ok", [arg[1], out[0], out[1]])]
+    if op == "fhist":
+        return [("spec.float_accounting_ok", [arg[1:], out])]
+    if op == "sched_mix":
+        c0, progs = arg[0], arg[4]
+        trace, order, written, final = out
+        return [("spec.mixed_ok", [c0, order, final]),
+                ("spec.mix_replay_ok", [c0, progs, trace, written, final])]
     if op == "sched":
         c0, total, start, period, progs, mode, x = arg
         trace, final, speed, tr, _ = out
